@@ -362,6 +362,39 @@ func c07R2(c *Ctx, p *Prog) {
 						ok2 = false
 					}
 				}
+				if !ok2 {
+					// a pass-through helper (a cache in front of the constructor) hands its own parameter on: what the key
+					// can be is then decided at the helper's call sites
+					if prm, isP := arg.(*ssa.Parameter); isP && prm.Parent() == fn {
+						pi := -1
+						for i, q := range fn.Params {
+							if q == prm {
+								pi = i
+							}
+						}
+						nUp, okUp := 0, true
+						for _, g := range p.Funcs("benchproc") {
+							eachInstr(g, func(b2 *ssa.BasicBlock, in2 ssa.Instruction) {
+								c2, isC := in2.(ssa.CallInstruction)
+								if !isC || c2.Common().StaticCallee() != fn || pi < 0 || pi >= len(c2.Common().Args) {
+									return
+								}
+								nUp++
+								a2 := c2.Common().Args[pi]
+								f2 := constFacts(g, func(v ssa.Value) bool { return sameValue(v, a2) })
+								for _, ps := range pans {
+									if !safeAgainst(f2[b2], ps) {
+										okUp = false
+									}
+								}
+							})
+						}
+						if nUp > 0 && okUp {
+							ok2 = true
+							st = constSet{Top: true, Not: map[string]bool{"(decided at the helper's call sites)": true}}
+						}
+					}
+				}
 				var pd []string
 				for _, ps := range pans {
 					pd = append(pd, ps.String())
@@ -507,11 +540,36 @@ func c07R8(c *Ctx, p *Prog, ctor *ssa.Function, pans []constSet) {
 	filterMatchT := p.Named("benchproc/internal/parse", "FilterMatch")
 	fieldT := p.Named("benchproc/internal/parse", "Field")
 	n := 0
+	// pass-through helpers (a cache in front of the constructor): they hand their own parameter to the constructor
+	passThrough := map[*ssa.Function]int{}
+	for _, g := range p.Funcs("benchproc") {
+		eachInstr(g, func(_ *ssa.BasicBlock, in ssa.Instruction) {
+			if ci, ok := in.(ssa.CallInstruction); ok && ci.Common().StaticCallee() == ctor {
+				if prm, isP := ci.Common().Args[0].(*ssa.Parameter); isP && prm.Parent() == g {
+					for i, q := range g.Params {
+						if q == prm {
+							passThrough[g] = i
+						}
+					}
+				}
+			}
+		})
+	}
 	for _, fn := range p.Funcs("benchproc") {
+		if _, isPT := passThrough[fn]; isPT {
+			continue
+		}
 		var arg ssa.Value
 		eachInstr(fn, func(_ *ssa.BasicBlock, in ssa.Instruction) {
-			if ci, ok := in.(ssa.CallInstruction); ok && ci.Common().StaticCallee() == ctor {
+			ci, ok := in.(ssa.CallInstruction)
+			if !ok {
+				return
+			}
+			sc := ci.Common().StaticCallee()
+			if sc == ctor {
 				arg = ci.Common().Args[0]
+			} else if i, isPT := passThrough[sc]; isPT && i < len(ci.Common().Args) {
+				arg = ci.Common().Args[i]
 			}
 		})
 		if arg == nil {
